@@ -35,6 +35,13 @@
 //!   Z     agent.terminate(), the gate object stays alive (unit busy exiting);
 //!         link ops are skipped until the gate is dropped
 //!   X     the unit's task is cancelled and the root gate dropped (without Terminate, or after Z)
+//!   H     the unit is busy with something else than its gate: the pending process() call is cancelled (as
+//!         process_until does) and process() is not polled until `R`; commands pile up in the root's command
+//!         channel (16 places; a sender that finds it full waits). k / x / T / Z / X / b are skipped meanwhile,
+//!         d / s / r (which await their send) are skipped when the channel is full
+//!   R     the unit gets back to its gate: process() runs again and works off the commands
+//!   o l   the connected link l is DROPPED (`impl Drop for Link`: the Unsubscribe is sent by a spawned task that
+//!         waits for room); the component keeps its direct-update target and gets a fresh link to the same gate
 //! Link ops and `k` are skipped while commands are waiting in the root's queue
 //! (`GateAgent::verif_pending_commands`, read after settling): the root is not
 //! getting to them, and the queue (16) must not fill up.
@@ -75,7 +82,11 @@ struct L { lk: Option<LK>, direct: bool, tgt: Option<Arc<Tgt>>, dlog: Log, pendi
            conn: bool, susp: bool, gone: bool, log: Vec<(u32, u32)> }
 struct P { gate: Option<Arc<Gate>>, next: u32, busy: Option<Arc<AtomicBool>>, term: bool }
 
-struct St { root_done: Arc<AtomicBool>, root_task: Option<tokio::task::JoinHandle<()>>, term_req: bool, aborted: bool,
+/// op H / R: whether the unit polls process() of the root gate
+#[derive(Default)]
+struct Hold { held: AtomicBool, wake: tokio::sync::Notify }
+
+struct St { hold: Arc<Hold>, root_done: Arc<AtomicBool>, root_task: Option<tokio::task::JoinHandle<()>>, term_req: bool, aborted: bool,
             agent: GateAgent, links: Vec<L>, pubs: Vec<P>, out: Vec<String> }
 
 async fn settle() { tokio::time::sleep(Duration::from_millis(1)).await }
@@ -96,7 +107,41 @@ impl St {
     fn closing(&self) -> bool { self.term_req && !self.root_gone() }
 
     /// commands the root has not got to
-    fn stuck(&self) -> bool { !self.root_gone() && self.agent.verif_pending_commands() > 0 }
+    fn stuck(&self) -> bool { !self.held() && !self.root_gone() && self.agent.verif_pending_commands() > 0 }
+
+    fn held(&self) -> bool { self.hold.held.load(SeqCst) }
+
+    /// the unit is busy elsewhere and every place of the command channel is taken: a sender would wait
+    fn full(&self) -> bool { self.held() && self.agent.verif_pending_commands() >= 16 }
+
+    async fn hold_root(&mut self) -> &'static str {
+        if self.held() || !self.root_handle() || self.term_req || self.stuck() || self.root_done.load(SeqCst) || self.aborted { return "skip" }
+        self.hold.held.store(true, SeqCst);
+        self.hold.wake.notify_one();
+        settle().await;
+        "ok"
+    }
+
+    async fn release_root(&mut self) -> &'static str {
+        if !self.held() { return "skip" }
+        self.hold.held.store(false, SeqCst);
+        self.hold.wake.notify_one();
+        self.root_drain().await;
+        "ok"
+    }
+
+    /// Drop for Link: the link object goes, the component keeps its target and gets a new link to the gate
+    async fn drop_link(&mut self, l: usize) -> &'static str {
+        if !self.links[l].conn || self.links[l].pending.is_some() || self.closing() || self.stuck() { return "skip" }
+        let lk = self.links[l].lk.take().unwrap();
+        drop(lk);
+        self.links[l].conn = false;
+        self.links[l].susp = false;
+        let link = self.agent.create_link();
+        self.links[l].lk = Some(if self.links[l].direct { LK::D(DirectLink::from(link)) } else { LK::Q(link) });
+        self.root_drain().await;
+        "ok"
+    }
 
     /// Settling; then pick up every connect() that has come back meanwhile.
     async fn root_drain(&mut self) {
@@ -165,7 +210,7 @@ impl St {
             self.root_drain().await;
             return "cut";
         }
-        if self.stuck() { return "skip" }
+        if self.stuck() || (late && self.held()) { return "skip" }
         if self.links[l].gone { return "gone" }
         let mut lk = self.links[l].lk.take().unwrap();
         if self.links[l].direct && self.links[l].tgt.is_none() {
@@ -194,7 +239,7 @@ impl St {
     }
 
     async fn link_cmd(&mut self, l: usize, what: &str) -> &'static str {
-        if !self.links[l].conn || self.closing() || self.stuck() { return "skip" }
+        if !self.links[l].conn || self.closing() || self.stuck() || self.full() { return "skip" }
         if what == "s" && self.links[l].susp { return "skip" }
         if what == "r" && !self.links[l].susp { return "skip" }
         let lk = &mut self.links[l];
@@ -282,17 +327,26 @@ pub fn run_case(line: &str) -> String {
     }).collect();
     let gate = Arc::new(gate);
     let root_done = Arc::new(AtomicBool::new(false));
+    let hold = Arc::new(Hold::default());
     let root_task = {
         let (g, flag) = (gate.clone(), root_done.clone());
         let _e = rt.enter();
         // "run" the gate like a unit does; the unit exits when process() says Terminated
+        let hold = hold.clone();
         tokio::spawn(async move {
-            while g.process().await.is_ok() {}
+            loop {
+                if hold.held.load(SeqCst) { hold.wake.notified().await; continue; }
+                let r = tokio::select! { biased;
+                    _ = hold.wake.notified() => None,
+                    r = g.process() => Some(r),
+                };
+                if let Some(Err(_)) = r { break }
+            }
             drop(g);
             flag.store(true, SeqCst);
         })
     };
-    let mut st = St { root_done, root_task: Some(root_task), term_req: false, aborted: false, agent, links, out: vec![],
+    let mut st = St { hold, root_done, root_task: Some(root_task), term_req: false, aborted: false, agent, links, out: vec![],
                       pubs: vec![P { gate: Some(gate), next: 0, busy: None, term: false }] };
     let num = |o: &Vec<&str>| o.get(1).and_then(|t| t.parse::<usize>().ok()).unwrap_or(0);
     for o in &ops {
@@ -301,12 +355,15 @@ pub fn run_case(line: &str) -> String {
             "c" if num(o) < NLINKS => format!("c:{}", rt.block_on(st.connect(num(o)))),
             "d" | "s" | "r" if num(o) < NLINKS => format!("{}:{}", o[0], rt.block_on(st.link_cmd(num(o), o[0]))),
             "t" if num(o) < NLINKS => format!("t:{}", rt.block_on(st.target_drop(num(o)))),
+            "o" if num(o) < NLINKS => format!("o:{}", rt.block_on(st.drop_link(num(o)))),
+            "H" => format!("H:{}", rt.block_on(st.hold_root())),
+            "R" => format!("R:{}", rt.block_on(st.release_root())),
             "a" | "b" if num(o) < NLINKS => format!("{}:{}", o[0], rt.block_on(st.abandon(num(o), o[0] == "b"))),
             "q" if num(o) < NLINKS => format!("q:{}", rt.block_on(st.query(num(o)))),
             "u" => format!("u:{}", rt.block_on(st.update(num(o)))),
             "M" => format!("M:{}/{}", metrics.num_updates.load(SeqCst), metrics.num_dropped_updates.load(SeqCst)),
             "k" => {
-                if !st.root_handle() || st.term_req || st.stuck() || st.pubs.len() > MAXCLONES { "k:skip".into() } else {
+                if !st.root_handle() || st.term_req || st.stuck() || st.held() || st.pubs.len() > MAXCLONES { "k:skip".into() } else {
                     let g = rt.block_on(async { let g = st.pubs[0].gate.as_ref().unwrap().as_ref().clone(); st.root_drain().await; g });
                     st.pubs.push(P { gate: Some(Arc::new(g)), next: 0, busy: None, term: false });
                     format!("k:{}", st.pubs.len() - 1)
@@ -314,7 +371,7 @@ pub fn run_case(line: &str) -> String {
             }
             "x" => {
                 let c = num(o);
-                if c == 0 || c >= st.pubs.len() || st.pubs[c].gate.is_none() || !idle(&mut st.pubs[c]) { "x:skip".into() } else {
+                if c == 0 || c >= st.pubs.len() || st.pubs[c].gate.is_none() || !idle(&mut st.pubs[c]) || st.held() { "x:skip".into() } else {
                     drop_clone(&rt, &mut st, c);
                     "x:ok".into()
                 }
@@ -324,16 +381,17 @@ pub fn run_case(line: &str) -> String {
                 if c == 0 || c >= st.pubs.len() { format!("{}:skip", o[0]) } else { format!("{}:{}", o[0], rt.block_on(st.clone_process(c, o[0] == "D"))) }
             }
             "T" | "Z" => {
-                if !st.root_handle() || st.term_req || !idle(&mut st.pubs[0]) { format!("{}:skip", o[0]) } else { format!("{}:{}", o[0], terminate(&rt, &mut st, o[0] == "T")) }
+                if !st.root_handle() || st.term_req || !idle(&mut st.pubs[0]) || st.held() { format!("{}:skip", o[0]) } else { format!("{}:{}", o[0], terminate(&rt, &mut st, o[0] == "T")) }
             }
             "X" => {
-                if !st.root_handle() || !idle(&mut st.pubs[0]) { "X:skip".into() } else { format!("X:{}", drop_root(&rt, &mut st)) }
+                if !st.root_handle() || !idle(&mut st.pubs[0]) || st.held() { "X:skip".into() } else { format!("X:{}", drop_root(&rt, &mut st)) }
             }
             _ => "?".into(),
         };
         st.out.push(tok);
     }
-    // ---- final phase: let every update in flight finish, then terminate everything
+    // ---- final phase: the unit gets back to its gate; let every update in flight finish, then terminate everything
+    rt.block_on(st.release_root());
     loop {
         let mut progress = false;
         for l in (0..NLINKS).step_by(2) {
